@@ -7,6 +7,6 @@ require (
 	golang.org/x/text v0.14.0
 )
 
-require golang.org/x/crypto v0.17.0 // indirect
+require golang.org/x/crypto v0.17.0
 
 replace github.com/islishude/bip39 => /repo
